@@ -45,8 +45,20 @@ def run(ctx: Ctx):
     ctx.attempt(stats, ctx)
     ctx.attempt(tables, ctx)
     ctx.attempt(collectors, ctx)
+    ctx.attempt(discarded_steps, ctx)
     ctx.floor("EV", 8)
     ctx.not_decided += ["numeric sums of event fields vs state fields", "the pickup waiting-time bound (time-of-day arithmetic)"]
+
+
+def discarded_steps(ctx: Ctx):
+    """Events are filed when they happen and are not taken back: an event must not be followed by the loss of the state
+    change it reports. (a) The cancel fold threads its accumulator (a removal applied to a stale state is reported but
+    lost, and reported again later). (b) A vehicle step that has filed a pickup is discarded if the new activity's first
+    update yields no state; move() yields none only when traverse() hands back no traversal, so traverse() must hand back a
+    traversal on every non-error path."""
+    from . import c03, c06
+    c03.cancellation(ctx, timing=False)
+    c06.partition(ctx, False)
 
 
 def _reports(p):
